@@ -78,7 +78,7 @@ def simple_values():
 
 CORE = [None, True, 0, -1, 1.5, "abc", "a b", "", "NULL", "it's", dt.date(2001, 2, 28), dt.time(12, 0, tzinfo=UTC)]
 
-KEYS = ["k", "Key_1", "lower", "^ptr", "ns:key", "K" * 30, "K" * 31, "bad key", "END", "a-b", "k.x", "1k", "k_", "",
+KEYS = ["k", "Key_1", "lower", "_k", "^_k", "ns:_k", "_", "__k__", "k__1", "^ptr", "ns:key", "K" * 30, "K" * 31, "bad key", "END", "a-b", "k.x", "1k", "k_", "",
         "g-", "12:00", "12:00-01", "2001-001", "NULL", "true", "group", "1", "1.5", "16#F#", "a+b", "a#b", "x/y",
         "a\"b", "it's", "end_group", "Begin_Object", "^" + "K" * 29, "^" + "K" * 30, "NS:" + "K" * 27, "NS:" + "K" * 28,
         "^NS:" + "K" * 27, "K" * 29 + "_"]
@@ -174,12 +174,14 @@ OPTIONS = {
     "tab_replace": [0],
     "symbol_single_quote": [False],
     "time_trailing_z": [False],
+    # not a library option: how the caller wires grammar and decoder into the encoder (impl.make_encoder)
+    "_wiring": ["decoder-only", "decoder-with-its-default-grammar", "grammar-only", "both-separate", "both-shared"],
 }
 
 
 def configs(encname, dev):
     """all configurations that deviate from the encoder's defaults in <= dev options"""
-    names = ["indent", "width", "aggregation_end"]
+    names = ["indent", "width", "aggregation_end", "_wiring"]
     if encname != "PDS3":
         names += ["newline", "end_delimiter"]
     else:
